@@ -128,6 +128,7 @@ def spec_checks(node, x, rnd):
     xa = numpy.array(x, dtype=float).reshape(-1, 1)
     with numpy.errstate(all="ignore"):
         pristine = copy.deepcopy(obj)
+        distgen.disturb(rnd, obj, xa)
         g = obj.gradient(xa.copy())
         if not (isinstance(g, numpy.ndarray) and g.shape == (node.dim, 1)):
             return [("gradient-shape", f"{node.desc}: gradient has shape {getattr(g, 'shape', None)}, expected {(node.dim, 1)}")], None, None
